@@ -790,6 +790,10 @@ class Interp:
                         m.cache[e.id] = self.expr(m.assigns[e.id], {})
                     return m.cache[e.id]
             return AOpaque(e.id)
+        if isinstance(e, ast.Lambda):
+            fdef = ast.FunctionDef(name='<lambda>', args=e.args, body=[ast.Return(value=e.body)], decorator_list=[], returns=None, type_comment=None, type_params=[])
+            ast.copy_location(fdef, e); ast.fix_missing_locations(fdef)
+            return AFunc(fdef, env)
         if isinstance(e, ast.NamedExpr) and isinstance(e.target, ast.Name):
             v = self.expr(e.value, env)
             env[e.target.id] = v
@@ -1106,6 +1110,11 @@ class Interp:
         return {ast.Eq: _op.eq, ast.NotEq: _op.ne, ast.Lt: _op.lt, ast.LtE: _op.le, ast.Gt: _op.gt, ast.GtE: _op.ge}[type(op)](x, y)
 
     def binop(self, op, a, b):
+        bh = getattr(self, 'binop_hook', None)
+        if bh is not None:
+            r_ = bh(op, a, b)
+            if r_ is not NotImplemented:
+                return r_
         if isinstance(op, ast.Mod) and isinstance(a, AStr) and a.literal() is not None:
             return self.printf(a.literal(), list(b) if isinstance(b, tuple) else [b])
         if isinstance(a, AOpaque) or isinstance(b, AOpaque):
@@ -1327,6 +1336,20 @@ class Interp:
             if r is not NotImplemented:
                 return r
         f = e.func
+        if isinstance(f, ast.Call) and isinstance(f.func, ast.Name) and f.func.id in ('methodcaller', 'attrgetter', 'itemgetter') and f.func.id not in env and len(e.args) == 1 and not e.keywords \
+                and f.args and isinstance(f.args[0], ast.Constant) and not f.keywords:
+            # operator.methodcaller('m', *a)(x) is x.m(*a); attrgetter('a')(x) is x.a; itemgetter(k)(x) is x[k]
+            if f.func.id == 'methodcaller' and isinstance(f.args[0].value, str):
+                c_ = ast.Call(func=ast.Attribute(value=e.args[0], attr=f.args[0].value, ctx=ast.Load()), args=list(f.args[1:]), keywords=[])
+            elif f.func.id == 'attrgetter' and isinstance(f.args[0].value, str) and f.args[0].value.isidentifier() and len(f.args) == 1:
+                c_ = ast.Attribute(value=e.args[0], attr=f.args[0].value, ctx=ast.Load())
+            elif f.func.id == 'itemgetter' and len(f.args) == 1:
+                c_ = ast.Subscript(value=e.args[0], slice=f.args[0], ctx=ast.Load())
+            else:
+                c_ = None
+            if c_ is not None:
+                ast.copy_location(c_, e); ast.fix_missing_locations(c_)
+                return self.expr(c_, env)
         if isinstance(f, ast.Name) and f.id == 'map' and 'map' not in env and len(e.args) == 2 and not e.keywords and not isinstance(e.args[1], ast.Starred):
             # map(F, xs): F is applied as written to each element (F itself need not be a value the interpreter models, e.g. '{:02X}'.format)
             out_ = []
@@ -1633,6 +1656,11 @@ class Interp:
                     else:
                         raise Unknown(f"struct.unpack kind {kind} at line {e.lineno}")
                 return tuple(res)
+            if isinstance(f.value, ast.Name) and f.value.id == 'binascii' and m in ('hexlify', 'b2a_hex') and len(args) == 1 and isinstance(args[0], ABytes):
+                return AStr([('hexbytes', list(args[0].items))])          # the ASCII text of the lower-case hex digits (decode() of it is the same text)
+            if isinstance(f.value, ast.Name) and f.value.id == 'binascii' and m in ('unhexlify', 'a2b_hex') and len(args) == 1 and isinstance(args[0], AStr) \
+                    and len(args[0].pieces) == 1 and args[0].pieces[0][0] == 'hexbytes':
+                return ABytes(args[0].pieces[0][1])
             if isinstance(f.value, ast.Name) and f.value.id == 'bytes' and m == 'fromhex':
                 x = args[0]
                 if isinstance(x, AStr):
